@@ -39,6 +39,8 @@ type interpreter struct {
 	undo   []undoRec
 
 	initMode    bool // executing package initialisers (lenient)
+	reflectRtypePtr types.Type      // *reflect.rtype of the loaded program (see reflect.go)
+	reflectNative   map[string]bool // functions of package reflect that run as ordinary code
 	initAllowed func(path string) bool
 	initSkipped map[string]int
 
